@@ -890,6 +890,10 @@ def fmt(t, depth=0):
         return '...'
     k = t[0]
     f = lambda x: fmt(x, depth + 1)
+    if not isinstance(k, str):
+        return '[' + ', '.join(f(x) for x in t) + ']'
+    if k == 'array':
+        return '[' + ', '.join(f(x) for x in t[1]) + ']'
     if k == 'lit':
         return repr(t[1])
     if k == 'param':
